@@ -110,6 +110,7 @@ def oracle(program, aux):
     shim.install('UTC')
     failures = []
     seen = set()
+    shim.set_tick(len(program['ops']) % 2 == 1)      # a moving clock in half of the cases (nothing here compares bytes across runs)
     run = Run(program)
     run.stats = {'steps_checked': 0, 'c01_domain': 0}
 
